@@ -20,6 +20,16 @@ _PI = z3.Real("pi")
 PI_AXIOMS = [_PI > z3.RealVal("3.14159265358"), _PI < z3.RealVal("3.14159265359")]
 
 
+PIN = []
+
+
+def eid(e):
+    """id of a z3 term for use as a cache key; the term is pinned so that the id cannot be reused by another
+    term after garbage collection (a stale cache hit would be unsound)"""
+    PIN.append(e)
+    return e.get_id()
+
+
 class Unsupported(Exception):
     """code outside the verified subset -> undecided, never a violation"""
 
@@ -134,7 +144,7 @@ class Ctx:
         ext = unwrap(ext)
         if isinstance(ext, int):
             ext = z3.IntVal(ext)
-        key = (t.get_id(), None if ext is None else ext.get_id())
+        key = (eid(t), None if ext is None else eid(ext))
         if key in self._index_keys:
             return
         self._index_keys.add(key)
@@ -197,14 +207,14 @@ class Ctx:
     def mark_nonneg(self, t):
         t = unwrap(t)
         if z3.is_expr(t):
-            self.nonneg[t.get_id()] = True
+            self.nonneg[eid(t)] = True
 
     def is_nonneg(self, t):
         """is the integer term provably >= 0 under the current hypotheses? (cached)"""
         t = unwrap(t)
         if isinstance(t, int):
             return t >= 0
-        i = t.get_id()
+        i = eid(t)
         if i in self.nonneg:
             return self.nonneg[i]
         if self._instantiating:
@@ -270,7 +280,7 @@ _sym_cache = {}
 
 def _def_symbols(e):
     """names of the definitional fresh symbols (floor-division quotients/fractions, truncations) in e"""
-    k = e.get_id()
+    k = eid(e)
     if k in _sym_cache:
         return _sym_cache[k]
     out = set()
@@ -691,7 +701,7 @@ def _floor_parts(a, b):
     """(q, rem) with a = (q + frac)*b, q integer: the normalised encoding of numpy.divmod / // / %"""
     c = ctx()
     za, zb = _num2(a, b)
-    key = (za.get_id(), zb.get_id())
+    key = (eid(za), eid(zb))
     if key in c.floordiv_cache:
         return c.floordiv_cache[key]
     if z3.is_int(za) and z3.is_int(zb):
@@ -723,7 +733,7 @@ def _floor_parts(a, b):
         c.defs.append(z3.Implies(zb < 0, z3.And(rem <= 0, rem > zb)))
     res = (Sym(z3.ToReal(q)), Sym(rem))
     c.floordiv_cache[key] = res
-    c.floordiv_cache[("q", res[0].e.get_id())] = q
+    c.floordiv_cache[("q", eid(res[0].e))] = q
     return res
 
 
@@ -740,7 +750,7 @@ def mod(a, b):
     # q % 2 where q is an integer-valued real from a floor division
     if z3.is_real(za) and (is_num(b) and float(pynum(b)).is_integer()):
         c = ctx()
-        qi = c.floordiv_cache.get(("q", za.get_id()))
+        qi = c.floordiv_cache.get(("q", eid(za)))
         if qi is not None:
             return Sym(z3.ToReal(qi % int(pynum(b))))
     return _floor_parts(a, b)[1]
@@ -793,7 +803,7 @@ def sqrt_(a):
     if not isinstance(a, Sym):
         return math.sqrt(pynum(a))
     c = ctx()
-    key = ("sqrt", a.e.get_id())
+    key = ("sqrt", eid(a.e))
     if key in c.uf_cache:
         return c.uf_cache[key]
     e = uf("sqrt", a)
@@ -902,7 +912,7 @@ def to_int_trunc(a):
         return Sym(z3.If(a.e, z3.IntVal(1), z3.IntVal(0)))
     e = z3.simplify(a.e)
     c = ctx()
-    key = ("trunc", e.get_id())
+    key = ("trunc", eid(e))
     if key in c.floordiv_cache:
         return c.floordiv_cache[key]
     q = c.fresh("ti", "Int")
